@@ -126,3 +126,31 @@ def check_C07(tier):
     res.assumptions = ["the scripted service answers in request order and honours oneway",
                        "real thread schedules are sampled; the linearisation search is exhaustive per recorded run"]
     return res.finish()
+
+
+def check_C20(tier):
+    res = Result("C20", tier, "model_checking")
+    vh = build_harness()
+    bins = build_repo_bins(["varlink-cli"])
+    thorough = tier == "thorough"
+    consts = {"BugStopAtFirst": False, "BugExitZeroOnError": False, "BugSplitFirstSlash": False, "MaxK": 6 if thorough else 3, "Emit": True}
+    cfg = write_cfg(os.path.join(res.wd, "MC_Cli.cfg"), constants=consts, invariants=["InvExit", "InvOrder", "InvAll", "EmitCase"])
+    r = run_tlc("MC_Cli", cfg, res.wd, workers=2, tag="cli")
+    res.add_tlc(r)
+    if r.violation:
+        res.tlc_violation(r, "MC_Cli")
+    fails, summ, _ = run_vh(vh, ["cli"], r.replay, timeout=2400, env={"VERIF_VARLINK_BIN": os.path.join(bins, "varlink")})
+    res.add_failures(fails, "cli-replay")
+    res.traces += summ["executions"]
+    res.evaluations += summ["executions"]
+    res.nontrivial = {json.dumps([c["script"], c["more"]]) for c in r.replay if len(c["script"]) >= 1}
+    for c in r.replay[5::17][:4]:
+        res.sample(c)
+    res.rule = ("MC_Cli: every scripted reply stream (k <= 3/6 continues, then result / error with or without parameters / error with continues / "
+                "connection closed mid-stream) x {call, --more}; harness multiplies by 4 address forms (unix path with several slashes, "
+                "with ;mode, abstract, tcp) x colour on/off and rotates a pool of reply values (i64/u64 extremes, floats, escapes, non-ASCII, "
+                "nesting, {}, null, 5 kB string); non-trivial = distinct (script, mode) with >= 1 reply")
+    res.exhaustive = True
+    res.assumptions = ["a successful reply without a parameters member is printed as {}",
+                       "stdout is compared value for value with serde_json semantics after removing ANSI escapes"]
+    return res.finish()
